@@ -159,34 +159,44 @@ Definition is_invalid_len_or_asn (v : validity) : bool :=
 
 Definition lenN {A} (l : list A) : N := N.of_nat (length l).
 
-Definition categorise_roa (chk : bool) (r : croa) (validated : list vro) (all_roas : list croa) : option entry :=
-  (* 380-382 *)
-  let covered := filter (fun v => covers (r_pfx r) (a_pfx (v_ann v))) validated in
-  (* 386-388 *)
-  let others_covering :=
-    map r_pl (filter (fun o => covers (r_pfx o) (r_pfx r) && negb (payload_eqb (r_pl r) (r_pl o))) all_roas) in
-  (* 392-397 *)
-  let others_including :=
-    filter (fun o => (pl_asn o =? r_asn r) && (p_len (pl_pfx o) <=? p_len (r_pfx r)) && (r_max r <=? eff_max o))
-           others_covering in
-  (* 403-408 *)
-  let authorizes :=
-    map v_ann (filter (fun v => is_valid (v_val v) && (p_len (a_pfx (v_ann v)) <=? r_max r)
-                                && (a_asn (v_ann v) =? r_asn r)) covered) in
-  (* 411-417 *)
-  let disallows := map v_ann (filter (fun v => is_invalid_len_or_asn (v_val v)) covered) in
-  (* 422-433: [a > 0 && a < nr_of_specific_prefixes()], the right operand only evaluated when [a > 0] *)
+(** 380-382: all validated origins covered by the ROA prefix. *)
+Definition cat_covered (r : croa) (validated : list vro) : list vro :=
+  filter (fun v => covers (r_pfx r) (a_pfx (v_ann v))) validated.
+(** 386-388: other ROAs (different payload) that cover this ROA's prefix. *)
+Definition cat_others_covering (r : croa) (all_roas : list croa) : list payload :=
+  map r_pl (filter (fun o => covers (r_pfx o) (r_pfx r) && negb (payload_eqb (r_pl r) (r_pl o))) all_roas).
+(** 392-397: those of them that include this ROA's definition. *)
+Definition cat_others_including (r : croa) (all_roas : list croa) : list payload :=
+  filter (fun o => (pl_asn o =? r_asn r) && (p_len (pl_pfx o) <=? p_len (r_pfx r)) && (r_max r <=? eff_max o))
+         (cat_others_covering r all_roas).
+(** 403-408: route origins made valid by this ROA. *)
+Definition cat_authorizes (r : croa) (validated : list vro) : list ann :=
+  map v_ann (filter (fun v => is_valid (v_val v) && (p_len (a_pfx (v_ann v)) <=? r_max r)
+                              && (a_asn (v_ann v) =? r_asn r)) (cat_covered r validated)).
+(** 411-417: route origins made invalid by this ROA. *)
+Definition cat_disallows (r : croa) (validated : list vro) : list ann :=
+  map v_ann (filter (fun v => is_invalid_len_or_asn (v_val v)) (cat_covered r validated)).
+(** 422-433: [a > 0 && a < nr_of_specific_prefixes()], the right operand only evaluated when [a > 0];
+    [None] = arithmetic overflow panic. *)
+Definition cat_excess (chk : bool) (r : croa) (authorizes : list ann) : option bool :=
   let nr_origins := lenN (filter (fun a => p_len (a_pfx a) =? r_max r) authorizes) in
-  let excess : option bool :=
-    if 0 <? nr_origins then
-      match nr_of_specific_prefixes chk (r_pl r) with
-      | Some n => Some (nr_origins <? n)
-      | None => None
-      end
-    else Some false in
-  match excess with
+  if 0 <? nr_origins then
+    match nr_of_specific_prefixes chk (r_pl r) with
+    | Some n => Some (nr_origins <? n)
+    | None => None
+    end
+  else Some false.
+
+Definition categorise_roa (chk : bool) (r : croa) (validated : list vro) (all_roas : list croa) : option entry :=
+  let covered := cat_covered r validated in
+  let others_covering := cat_others_covering r all_roas in
+  let others_including := cat_others_including r all_roas in
+  let authorizes := cat_authorizes r validated in
+  let disallows := cat_disallows r validated in
+  match cat_excess chk r authorizes with
   | None => None
   | Some authorizes_excess =>
+      (* 436-475 *)
       Some (
         if r_asn r =? 0 then
           match others_covering with
@@ -309,55 +319,53 @@ Definition entry_eqb (a b : entry) : bool :=
 (** [RoaPayload::from(Announcement)] (bgp.rs:1038-1042). *)
 Definition payload_of_ann (a : ann) : payload := mkPl (a_asn a) (a_pfx a) None.
 
-(** One step of the loop 253-312. [configured_roa()]/[announcement()] panic on the wrong kind of entry
-    (bgp.rs:634-654): [None]. *)
-Definition suggest_step (entries : list entry) (e : entry) (s : suggestion) : option suggestion :=
-  let roa := match e_subj e with SRoa r => Some r | SAnn _ => None end in
-  let an := match e_subj e with SAnn a => Some a | SRoa _ => None end in
-  let with_roa (f : croa -> suggestion) := match roa with Some r => Some (f r) | None => None end in
-  let with_ann (f : ann -> suggestion) := match an with Some a => Some (f a) | None => None end in
-  let upd_stale r := mkSug (s_stale s ++ [r]) (s_not_found s) (s_invalid_asn s) (s_invalid_length s) (s_too_permissive s) (s_disallowing s) (s_redundant s) (s_not_held s) (s_as0_redundant s) (s_keep s) (s_keep_disallowing s) in
-  let upd_not_found a := mkSug (s_stale s) (s_not_found s ++ [a]) (s_invalid_asn s) (s_invalid_length s) (s_too_permissive s) (s_disallowing s) (s_redundant s) (s_not_held s) (s_as0_redundant s) (s_keep s) (s_keep_disallowing s) in
-  let upd_invalid_asn a := mkSug (s_stale s) (s_not_found s) (s_invalid_asn s ++ [a]) (s_invalid_length s) (s_too_permissive s) (s_disallowing s) (s_redundant s) (s_not_held s) (s_as0_redundant s) (s_keep s) (s_keep_disallowing s) in
-  let upd_invalid_length a := mkSug (s_stale s) (s_not_found s) (s_invalid_asn s) (s_invalid_length s ++ [a]) (s_too_permissive s) (s_disallowing s) (s_redundant s) (s_not_held s) (s_as0_redundant s) (s_keep s) (s_keep_disallowing s) in
-  let upd_too_permissive x := mkSug (s_stale s) (s_not_found s) (s_invalid_asn s) (s_invalid_length s) (s_too_permissive s ++ [x]) (s_disallowing s) (s_redundant s) (s_not_held s) (s_as0_redundant s) (s_keep s) (s_keep_disallowing s) in
-  let upd_disallowing r := mkSug (s_stale s) (s_not_found s) (s_invalid_asn s) (s_invalid_length s) (s_too_permissive s) (s_disallowing s ++ [r]) (s_redundant s) (s_not_held s) (s_as0_redundant s) (s_keep s) (s_keep_disallowing s) in
-  let upd_redundant r := mkSug (s_stale s) (s_not_found s) (s_invalid_asn s) (s_invalid_length s) (s_too_permissive s) (s_disallowing s) (s_redundant s ++ [r]) (s_not_held s) (s_as0_redundant s) (s_keep s) (s_keep_disallowing s) in
-  let upd_not_held r := mkSug (s_stale s) (s_not_found s) (s_invalid_asn s) (s_invalid_length s) (s_too_permissive s) (s_disallowing s) (s_redundant s) (s_not_held s ++ [r]) (s_as0_redundant s) (s_keep s) (s_keep_disallowing s) in
-  let upd_as0_redundant r := mkSug (s_stale s) (s_not_found s) (s_invalid_asn s) (s_invalid_length s) (s_too_permissive s) (s_disallowing s) (s_redundant s) (s_not_held s) (s_as0_redundant s ++ [r]) (s_keep s) (s_keep_disallowing s) in
-  let upd_keep r := mkSug (s_stale s) (s_not_found s) (s_invalid_asn s) (s_invalid_length s) (s_too_permissive s) (s_disallowing s) (s_redundant s) (s_not_held s) (s_as0_redundant s) (s_keep s ++ [r]) (s_keep_disallowing s) in
-  let upd_keep_disallowing a := mkSug (s_stale s) (s_not_found s) (s_invalid_asn s) (s_invalid_length s) (s_too_permissive s) (s_disallowing s) (s_redundant s) (s_not_held s) (s_as0_redundant s) (s_keep s) (s_keep_disallowing s ++ [a]) in
-  match e_state e with
-  | RoaUnseen => with_roa upd_stale
-  | RoaTooPermissive =>
-      (* 259-269: announcements this ROA authorises that no *other* entry authorises *)
-      let replace_with :=
-        map payload_of_ann
-            (filter (fun a => negb (existsb (fun other => negb (entry_eqb other e)
-                                                          && existsb (ann_eqb a) (e_authorizes other)) entries))
-                    (e_authorizes e)) in
-      with_roa (fun r => upd_too_permissive (r, replace_with))
-  | RoaSeen | RoaAs0 => with_roa upd_keep
-  | RoaDisallowing => with_roa upd_disallowing
-  | RoaRedundant => with_roa upd_redundant
-  | RoaNotHeld => with_roa upd_not_held
-  | RoaAs0Redundant => with_roa upd_as0_redundant
-  | AnnValid => Some s
-  | AnnNotFound => with_ann upd_not_found
-  | AnnInvalidAsn => with_ann upd_invalid_asn
-  | AnnInvalidLength => with_ann upd_invalid_length
-  | AnnDisallowed => with_ann upd_keep_disallowing
-  | RoaNoInfo => with_roa upd_keep
+(** The loop 253-312 dispatches on the state of each entry and pushes the entry's ROA or announcement
+    to one list of the suggestion, in report order: a partition of the entries by state.
+    [configured_roa()] / [announcement()] panic when the entry is of the other kind (bgp.rs:634-654);
+    [kind_consistent] is exactly the condition under which no iteration panics. *)
+Definition roa_state (s : state) : bool :=
+  match s with
+  | AnnValid | AnnInvalidLength | AnnInvalidAsn | AnnDisallowed | AnnNotFound => false
+  | _ => true
+  end.
+Definition kind_consistent (e : entry) : bool :=
+  match e_subj e, e_state e with
+  | SAnn _, AnnValid => true              (* 295: no accessor is called *)
+  | SRoa _, AnnValid => true
+  | SRoa _, s => roa_state s
+  | SAnn _, s => negb (roa_state s)
   end.
 
-Fixpoint suggest_loop (entries todo : list entry) (s : suggestion) : option suggestion :=
-  match todo with
-  | [] => Some s
-  | e :: r => match suggest_step entries e s with Some s' => suggest_loop entries r s' | None => None end
-  end.
+Definition roas_in (p : state -> bool) (es : list entry) : list croa :=
+  flat_map (fun e => if p (e_state e) then match e_subj e with SRoa r => [r] | SAnn _ => [] end else []) es.
+Definition anns_in (p : state -> bool) (es : list entry) : list ann :=
+  flat_map (fun e => if p (e_state e) then match e_subj e with SAnn a => [a] | SRoa _ => [] end else []) es.
+Definition st_is (a b : state) : bool := state_code a =? state_code b.
+
+(** 259-269: announcements this ROA authorises that no *other* entry authorises. *)
+Definition replace_with (entries : list entry) (e : entry) : list payload :=
+  map payload_of_ann
+      (filter (fun a => negb (existsb (fun other => negb (entry_eqb other e)
+                                                    && existsb (ann_eqb a) (e_authorizes other)) entries))
+              (e_authorizes e)).
 
 Definition suggest_of_entries (entries : list entry) : option suggestion :=
-  suggest_loop entries entries empty_suggestion.
+  if forallb kind_consistent entries then
+    Some (mkSug
+      (roas_in (st_is RoaUnseen) entries)                                            (* 255-257 stale *)
+      (anns_in (st_is AnnNotFound) entries)                                          (* 296-298 *)
+      (anns_in (st_is AnnInvalidAsn) entries)                                        (* 299-301 *)
+      (anns_in (st_is AnnInvalidLength) entries)                                     (* 302-304 *)
+      (flat_map (fun e => if st_is RoaTooPermissive (e_state e)
+                          then match e_subj e with SRoa r => [(r, replace_with entries e)] | SAnn _ => [] end
+                          else []) entries)                                          (* 258-277 *)
+      (roas_in (st_is RoaDisallowing) entries)                                       (* 281-283 *)
+      (roas_in (st_is RoaRedundant) entries)                                         (* 284-286 *)
+      (roas_in (st_is RoaNotHeld) entries)                                           (* 287-289 *)
+      (roas_in (st_is RoaAs0Redundant) entries)                                      (* 290-294 *)
+      (roas_in (fun s => st_is RoaSeen s || st_is RoaAs0 s || st_is RoaNoInfo s) entries)   (* 278-280, 308-310 keep *)
+      (anns_in (st_is AnnDisallowed) entries))                                       (* 305-307 *)
+  else None.
 
 Definition suggest (chk : bool) (roas : list croa) (held : resources) (limit : option resources)
            (seen : option (list ann)) : option suggestion :=
@@ -365,3 +373,23 @@ Definition suggest (chk : bool) (roas : list croa) (held : resources) (limit : o
   | Some entries => suggest_of_entries entries
   | None => None
   end.
+
+(** [From<BgpAnalysisSuggestion> for RoaConfigurationUpdates] (src/api/roa.rs:554-591): what following the
+    suggestion adds and removes, as [(added, removed)]. *)
+Definition updates_of_suggestion (s : suggestion) : list payload * list payload :=
+  (map payload_of_ann (s_not_found s ++ s_invalid_asn s ++ s_invalid_length s) ++ flat_map snd (s_too_permissive s),
+   map r_pl (s_stale s) ++ map (fun x => r_pl (fst x)) (s_too_permissive s)
+   ++ map r_pl (s_as0_redundant s) ++ map r_pl (s_redundant s)).
+
+(** ** Derived notions used in the statements of [AnalyserProofs.v]
+
+    What [validate_set] computes for one route origin (its set has the origin's prefix), and the list of
+    route origins that [analyse] validates for a list of scope prefixes. *)
+Definition validate_one (roas : list croa) (a : ann) : vro :=
+  match filter (fun r => covers (r_pfx r) (a_pfx a)) roas with
+  | [] => mkV a VNotFound []
+  | covering => validate a covering
+  end.
+
+Definition scoped_anns (store : list ann) (scope : list prefix) : list ann :=
+  flat_map (fun p => ann_sort (filter (fun a => covers p (a_pfx a)) store)) scope.
